@@ -1544,7 +1544,7 @@ func serverInfoHandler(w http.ResponseWriter, r *http.Request) {
 
 func serverNoteHandler(w http.ResponseWriter, r *http.Request) {
 	w.Header().Set("Content-Type", "text/plain")
-	fmt.Fprintf(w, tc.Server.Note)
+	fmt.Fprint(w, tc.Server.Note)
 }
 
 func serverConfigHandler(w http.ResponseWriter, r *http.Request) {
@@ -1701,7 +1701,7 @@ func reposInfoHandler(w http.ResponseWriter, r *http.Request) {
 		return
 	}
 	w.Header().Set("Content-Type", "application/json")
-	fmt.Fprintf(w, string(jsonBytes))
+	fmt.Fprint(w, string(jsonBytes))
 }
 
 // TODO -- Maybe allow assignment of child UUID via JSON in POST.  Right now, we only
@@ -1781,7 +1781,7 @@ func repoInfoHandler(c web.C, w http.ResponseWriter, r *http.Request) {
 		return
 	}
 	w.Header().Set("Content-Type", "application/json")
-	fmt.Fprintf(w, jsonStr)
+	fmt.Fprint(w, jsonStr)
 }
 
 func repoPostInfoHandler(c web.C, w http.ResponseWriter, r *http.Request) {
@@ -1837,7 +1837,7 @@ func repoBranchVersionsHandler(c web.C, w http.ResponseWriter, r *http.Request) 
 		return
 	}
 	w.Header().Set("Content-Type", "application/json")
-	fmt.Fprintf(w, jsonStr)
+	fmt.Fprint(w, jsonStr)
 }
 
 func repoNewDataHandler(c web.C, w http.ResponseWriter, r *http.Request) {
@@ -1915,7 +1915,7 @@ func getRepoLogHandler(c web.C, w http.ResponseWriter, r *http.Request) {
 		BadRequest(w, r, err)
 		return
 	}
-	fmt.Fprintf(w, string(jsonStr))
+	fmt.Fprint(w, string(jsonStr))
 }
 
 func postRepoLogHandler(c web.C, w http.ResponseWriter, r *http.Request) {
@@ -1953,7 +1953,7 @@ func getNodeNoteHandler(c web.C, w http.ResponseWriter, r *http.Request) {
 		BadRequest(w, r, err)
 		return
 	}
-	fmt.Fprintf(w, string(jsonStr))
+	fmt.Fprint(w, string(jsonStr))
 }
 
 func getNodeLogHandler(c web.C, w http.ResponseWriter, r *http.Request) {
@@ -1973,7 +1973,7 @@ func getNodeLogHandler(c web.C, w http.ResponseWriter, r *http.Request) {
 		BadRequest(w, r, err)
 		return
 	}
-	fmt.Fprintf(w, string(jsonStr))
+	fmt.Fprint(w, string(jsonStr))
 }
 
 func postNodeNoteHandler(c web.C, w http.ResponseWriter, r *http.Request) {
